@@ -7,8 +7,8 @@ Set Default Timeout 60.
 Lemma sanity_v1_go_consistent :
   sanity_go_recognised = true -> forall k, sanity_v1_go k = consistent_spec k.
 Proof.
-  intros Hrec. first [ discriminate Hrec | idtac ].
-  intros k. unfold sanity_v1_go, sanityCheckerHeadless_go, sanityCheckerNonce_go, consistent_spec.
-  change never_touch with 1%Z.
-  destruct (isHeadless k), (isNonce k), (isHW k), (isFF k), (Z.eqb (touch k) 1); reflexivity.
+  intros Hrec. try discriminate Hrec.
+  all: intros k; unfold sanity_v1_go, sanityCheckerHeadless_go, sanityCheckerNonce_go, consistent_spec;
+    change never_touch with 1%Z;
+    destruct (isHeadless k), (isNonce k), (isHW k), (isFF k), (Z.eqb (touch k) 1); reflexivity.
 Qed.
